@@ -85,22 +85,58 @@ Fixpoint protect_loop (c : Z) (pass : bytes) (k i n : nat) : list sterm * list d
     (out :: outs, t1 ++ t2 ++ t3, n3)
   end.
 
-(* one operation: (symbolic outputs, draw trace in call order, next free cell) *)
+(* SKESessionKeyV4.encrypt_sk (since repair 29ef9ad) and PKESessionKeyV3.encrypt_sk start with
+   `if len(sk) != symalg.key_size // 8: raise PGPEncryptionError`: a caller-supplied session key of the wrong length is
+   refused BEFORE the salt / the ephemeral key pair is drawn.  A key the operation drew itself always fits. *)
+Definition sk_fits (c : Z) (sk : option bytes) : bool :=
+  match sk with Some b => Z.of_nat (length b) =? key_octets c | None => true end.
+
+(* ciphers PrivKey.encrypt_keyblob can encrypt with (Model/KeyProtect.v can_encrypt).  Since repair a3ce830 the IV and the salt
+   are drawn into a String2Key object built on the side -- same calls, same order (IV, then salt), same sizes -- and a
+   refused protect raises out of the FIRST key packet: IDEA (1) and Twofish256 (10) are refused by _encrypt after that
+   packet's IV and salt were drawn (the values are dropped with the unused specifier); Plaintext (0) and non-ciphers have
+   no block size, gen_iv raises before anything is drawn. *)
+Definition can_protect (c : Z) : bool :=
+  ((2 <=? c) && (c <=? 4)) || ((7 <=? c) && (c <=? 9)) || ((11 <=? c) && (c <=? 13)).
+Definition protect_refused (c : Z) (npkts n : nat) : list sterm * list drawrec * nat :=
+  match npkts with
+  | O => ([], [], n)
+  | S _ =>
+    if (c =? 1) || (c =? 10) then
+      let '(iv, t1, n1) := draw PIV (blk_octets c) n in
+      let '(salt, t2, n2) := draw PSalt 8 n1 in
+      ([], t1 ++ t2, n2)
+    else ([], [], n)
+  end.
+
+(* one operation: (symbolic outputs, draw trace in call order, next free cell); no output = the operation raised *)
 Definition exec (o : fop) (n : nat) : list sterm * list drawrec * nat :=
   match o with
   | EncPass c pass msg sk enc =>
-    let '(skt, t1, n1) := session c sk n in
-    let '(salt, t2, n2) := draw PSalt 8 n1 in
-    let skesk := Cat (Lit [4; c; 3]) (Cat salt (Enc (Kdf (Pass pass) salt) (Cat (Lit [c]) skt))) in
-    if enc then ([Cat skesk (Msg msg)], t1 ++ t2, n2)
-    else let '(body, t3, n3) := seipd c skt msg n2 in ([Cat skesk body], t1 ++ t2 ++ t3, n3)
+    if sk_fits c sk then
+      let '(skt, t1, n1) := session c sk n in
+      let '(salt, t2, n2) := draw PSalt 8 n1 in
+      let skesk := Cat (Lit [4; c; 3]) (Cat salt (Enc (Kdf (Pass pass) salt) (Cat (Lit [c]) skt))) in
+      if enc then ([Cat skesk (Msg msg)], t1 ++ t2, n2)
+      else let '(body, t3, n3) := seipd c skt msg n2 in ([Cat skesk body], t1 ++ t2 ++ t3, n3)
+    else ([], [], n)
   | EncKey c k rcpt msg sk enc =>
-    let '(skt, t1, n1) := session c sk n in
-    let '(pk, t2, n2) := pkesk c k rcpt skt n1 in
-    if enc then ([Cat (Msg msg) pk], t1 ++ t2, n2)
-    else let '(body, t3, n3) := seipd c skt msg n2 in ([Cat body pk], t1 ++ t2 ++ t3, n3)
-  | Protect c pass npkts => protect_loop c pass npkts 0 n
+    if sk_fits c sk then
+      let '(skt, t1, n1) := session c sk n in
+      let '(pk, t2, n2) := pkesk c k rcpt skt n1 in
+      if enc then ([Cat (Msg msg) pk], t1 ++ t2, n2)
+      else let '(body, t3, n3) := seipd c skt msg n2 in ([Cat body pk], t1 ++ t2 ++ t3, n3)
+    else ([], [], n)
+  | Protect c pass npkts => if can_protect c then protect_loop c pass npkts 0 n else protect_refused c npkts n
   end.
+
+(* the rule before repair 29ef9ad: a supplied session key of any length went through, the salt was drawn *)
+Definition exec_pass_old (c : Z) (pass msg : bytes) (sk : option bytes) (enc : bool) (n : nat) : list sterm * list drawrec * nat :=
+  let '(skt, t1, n1) := session c sk n in
+  let '(salt, t2, n2) := draw PSalt 8 n1 in
+  let skesk := Cat (Lit [4; c; 3]) (Cat salt (Enc (Kdf (Pass pass) salt) (Cat (Lit [c]) skt))) in
+  if enc then ([Cat skesk (Msg msg)], t1 ++ t2, n2)
+  else let '(body, t3, n3) := seipd c skt msg n2 in ([Cat skesk body], t1 ++ t2 ++ t3, n3).
 
 (* the session-key term an encryption works with *)
 Definition sk_term (o : fop) (n : nat) : option sterm :=
@@ -123,13 +159,14 @@ Fixpoint run (ops : list fop) (n : nat) : list (list sterm * list drawrec) * nat
 Definition traces (ops : list fop) (n : nat) : list drawrec := concat (map snd (fst (run ops n))).
 Definition outputs (ops : list fop) (n : nat) : list sterm := concat (map fst (fst (run ops n))).
 
-(* what of an operation the draws may depend on: everything except message, passphrase, recipient, supplied key octets *)
-Inductive shape := ShPass (c : Z) (supplied enc : bool) | ShKey (c : Z) (k : kind) (supplied enc : bool) | ShProtect (c : Z) (npkts : nat).
+(* what of an operation the draws may depend on: everything except message, passphrase, recipient, supplied key octets
+   (of a supplied key only whether there is one and whether its LENGTH is the cipher's key size) *)
+Inductive shape := ShPass (c : Z) (supplied fits enc : bool) | ShKey (c : Z) (k : kind) (supplied fits enc : bool) | ShProtect (c : Z) (npkts : nat).
 Definition is_some {A} (o : option A) : bool := match o with Some _ => true | None => false end.
 Definition shape_of (o : fop) : shape :=
   match o with
-  | EncPass c _ _ sk enc => ShPass c (is_some sk) enc
-  | EncKey c k _ _ sk enc => ShKey c k (is_some sk) enc
+  | EncPass c _ _ sk enc => ShPass c (is_some sk) (sk_fits c sk) enc
+  | EncKey c k _ _ sk enc => ShKey c k (is_some sk) (sk_fits c sk) enc
   | Protect c _ n => ShProtect c n
   end.
 Definition cipher_of (o : fop) : Z :=
